@@ -3,6 +3,7 @@
      cells     the cells of the shape in depth-first order (own = stored in the struct itself) and the padding bytes
      reqs      every request of Optics!Requests with what the statements demand of it (Want: panic / lens on which
                cells / first match behind a pointer) and what the derivation-as-coded does (model: <<without, with>> the repaired checks)
+     foreign   the classes of dynamic container arguments for Putt / Gett with what the statement demands of each
      script    a multi-step Put script over the shape's first valid single lenses with the cell values expected
                after every step (P-level PutCells) and the values the following Get must return
    lib/fam_optics.py compiles the shapes and a subset of the requests into Go; harness/opticsdrv executes them. *)
@@ -45,5 +46,6 @@ Emit ==
                                          want |-> WantJ(l, foc, rs[r], ws[r]),
                                          model |-> <<Derive(sh, u, l, rs[r], FALSE).out, Derive(sh, u, l, rs[r], TRUE).out>>,
                                          core |-> \E i \in 1..Len(core) : core[i] = r]],
+        foreign |-> SetToSeq({[class |-> c, want |-> ForeignWant(c)] : c \in ForeignClasses}),
         script |-> ScriptFrom(1, CellVals(cs, InitMem(sh)), core, ws, foc, cs, ck)]))
 ====
